@@ -54,3 +54,20 @@ q = mjm.qpos0.copy(); q[2] = 1.0; d.qpos.assign(q[None].astype(np.float32)); mjw
 print("   pass 1: slot 0 geom", d.contact.geom.numpy()[0], "flex", d.contact.flex.numpy()[0], "vert", d.contact.vert.numpy()[0])
 q = mjm.qpos0.copy(); q[2] = 0.04; q[9::3] += 1.0; d.qpos.assign(q[None].astype(np.float32)); mjw.forward(m, d)   # box on the floor, flex lifted: rigid contacts only
 print("   pass 2: slot 0 geom", d.contact.geom.numpy()[0], "flex", d.contact.flex.numpy()[0], "vert", d.contact.vert.numpy()[0])
+
+print("D9  cylinder_triangle (2D flex element vs cylinder): wrong distances, false and missing contacts (checked against a sampled true distance)")
+mjm, mjd, m, d = both('<mujoco><worldbody><geom type="cylinder" size=".04 .06" pos="0.02 0.01 0.93" euler="10 20 30"/><flexcomp name="F" type="grid" dim="2" count="3 3 1" spacing=".1 .1 .1" radius=".01" mass="1" pos="0 0 1"><contact selfcollide="none"/></flexcomp></worldbody></mujoco>', pert=0.0, vel=0.0)
+V = mjd.flexvert_xpos; el = mjm.flex_elem.reshape(-1, 3); R = mjd.geom_xmat[0].reshape(3, 3)
+uu, vv = np.meshgrid(np.linspace(0, 1, 60), np.linspace(0, 1, 60)); mk = uu + vv <= 1; uu, vv = uu[mk], vv[mk]
+def true_dist(e):
+  a, b, c = V[el[e]]; loc = (a + uu[:, None] * (b - a) + vv[:, None] * (c - a) - mjd.geom_xpos[0]) @ R
+  dr, dz = np.hypot(loc[:, 0], loc[:, 1]) - 0.04, np.abs(loc[:, 2]) - 0.06
+  return float(np.where((dr <= 0) & (dz <= 0), np.maximum(dr, dz), np.hypot(np.maximum(dr, 0), np.maximum(dz, 0))).min()) - 0.01
+n = int(d.nacon.numpy()[0])
+print("   sampled ", {e: round(true_dist(e), 4) for e in range(len(el))})
+print("   MuJoCo  ", sorted((int(c.elem[1]), round(c.dist, 4)) for c in mjd.contact[:mjd.ncon]))
+print("   mjw     ", sorted((int(e[1]), round(float(x), 4)) for e, x in zip(d.contact.elem.numpy()[:n], d.contact.dist.numpy()[:n])))
+
+print("D10 contacts of elements that contain a world-pinned vertex with static geoms (MuJoCo filters them)")
+mjm, mjd, m, d = both('<mujoco><worldbody><geom type="cylinder" size="0.056939 0.067415" pos="-0.063972 -0.07302 0.24841" quat="-0.31045 0.85226 0.34642 0.2393"/><flexcomp name="F" type="grid" dim="3" count="2 2 2" spacing="0.0933 0.0933 0.0933" radius="0.01043" mass="0.871" pos="0 0 0.287" quat="0.18174 -0.27716 0.74677 -0.57662"><contact selfcollide="none"/><pin id="3"/></flexcomp></worldbody></mujoco>', pert=0.0, vel=0.0)
+print("   MuJoCo flex contacts %d | mjw %d" % (mjd.ncon, int(d.nacon.numpy()[0])))
